@@ -64,7 +64,7 @@ def build_registry(mods):
     reg.models[common.is_opaque] = _models.m_is_opaque
     if hasattr(common, 'is_item'):
         reg.models[common.is_item] = _models.m_is_item
-    for _n in ('conj', 'slot', 'snapshot_lists'):
+    for _n in ('conj', 'slot', 'snapshot_lists', 'all_keys'):
         if hasattr(common, _n):
             reg.models[getattr(common, _n)] = getattr(_models, 'm_' + _n)
     reg.models[common.items_of] = _models.m_items_of
